@@ -431,7 +431,7 @@ fn pairwise_interference(ctx: &Ctx, st: &mut Stats) -> Vec<Violation> {
 
 /// The gamma<->linear and RGB<->XYB error contract on real-size images (error paths of size-gated code)
 fn size_axis(ctx: &Ctx, st: &mut Stats) -> Vec<Violation> {
-    let sizes: Vec<(usize, usize)> = if ctx.quick() { vec![(257, 255), (2049, 2049)] } else { vec![(257, 255), (2049, 2049), (3841, 2161)] };
+    let sizes: Vec<(usize, usize)> = if ctx.quick() { vec![(257, 255), (2049, 2049), (3840, 2160)] } else { vec![(257, 255), (2049, 2049), (3840, 2160), (3841, 2161), (4097, 4097)] };
     let bad_p = [CP::Reserved0, CP::Reserved, CP::BT709];
     let bad_t = [TC::Reserved0, TC::Reserved, TC::BT1361E, TC::ST428, TC::SRGB];
     let mut jobs = Vec::new();
@@ -501,4 +501,4 @@ pub fn replay(v: &Value) -> Result<(), String> {
     check_triple(c.matrix_coefficients, c.color_primaries, c.transfer_characteristics, Shape { ss, full, img }, &mut Stats::new()).map_err(|v| v.message)
 }
 
-pub const RULE: &str = "complete enumeration (both tiers): every fully specified (MatrixCoefficients, ColorPrimaries, TransferCharacteristic) triple (14 x 13 x 18 = 3276) x 12 conversions on a 4x4 image, repeated for 14 shapes: subsampling 4:4:4, 4:2:0, 4:2:2, 4:1:0 (2,2), 4:4:0 x limited/full x image content {colourful in-gamut, achromatic (grey pixels / neutral chroma), out-of-gamut floats / extreme codes} (YUV<->RGB in u8 and u16 storage, gamma<->linear, YUV<->linear, YUV<->XYB, RGB<->XYB). Oracle: no panic; the 7 x 11 x 14 supported triples succeed everywhere; an error is an Unsupported* variant naming a field the conversion uses and that is responsible (counterfactual: replacing only that field by BT.709/BT.1886 removes that error); forward Ok iff reverse Ok; YUV<->RGB and gamma<->linear pairs fail with the same error; with a standard matrix YUV<->RGB output is bit-identical for all transfer/primaries values. The triples of each shape are visited in one of four orders (transfer, primaries or matrix varying fastest, shuffled). In addition: all 33,124 ordered pairs of (matrix, primaries) configurations as two-step histories (the second conversion right after the first vs in isolation on a fresh thread), the gamma<->linear / RGB<->XYB contract on real-size images (up to 2049x2049; thorough 3841x2161), and the YUV<->RGB outcome of every (matrix, primaries) pair on real-size frames (256x256 and 1024x72 unpadded, 321x207 padded; thorough also 1920x1080 and 3840x2160; u8 and u16 storage) compared with its outcome on a 4x4 frame. A case = one (triple, shape) (all 12 conversions and their counterfactuals); non-trivial = triple outside the all-supported set; distinct by construction";
+pub const RULE: &str = "complete enumeration (both tiers): every fully specified (MatrixCoefficients, ColorPrimaries, TransferCharacteristic) triple (14 x 13 x 18 = 3276) x 12 conversions on a 4x4 image, repeated for 14 shapes: subsampling 4:4:4, 4:2:0, 4:2:2, 4:1:0 (2,2), 4:4:0 x limited/full x image content {colourful in-gamut, achromatic (grey pixels / neutral chroma), out-of-gamut floats / extreme codes} (YUV<->RGB in u8 and u16 storage, gamma<->linear, YUV<->linear, YUV<->XYB, RGB<->XYB). Oracle: no panic; the 7 x 11 x 14 supported triples succeed everywhere; an error is an Unsupported* variant naming a field the conversion uses and that is responsible (counterfactual: replacing only that field by BT.709/BT.1886 removes that error); forward Ok iff reverse Ok; YUV<->RGB and gamma<->linear pairs fail with the same error; with a standard matrix YUV<->RGB output is bit-identical for all transfer/primaries values. The triples of each shape are visited in one of four orders (transfer, primaries or matrix varying fastest, shuffled). In addition: all 33,124 ordered pairs of (matrix, primaries) configurations as two-step histories (the second conversion right after the first vs in isolation on a fresh thread), the gamma<->linear / RGB<->XYB contract on real-size images (up to 3840x2160; thorough 3841x2161 and 4097x4097), and the YUV<->RGB outcome of every (matrix, primaries) pair on real-size frames (256x256 and 1024x72 unpadded, 321x207 padded; thorough also 1920x1080 and 3840x2160; u8 and u16 storage) compared with its outcome on a 4x4 frame. A case = one (triple, shape) (all 12 conversions and their counterfactuals); non-trivial = triple outside the all-supported set; distinct by construction";
